@@ -65,6 +65,12 @@ std::string CFG_FN(const std::string& text, const std::string& path, const std::
         idx += std::to_string(f1 - cp.MemberBegin()) + "," + std::to_string(f2 - cp.MemberBegin()) + ";";
       }
       cp.CreateMap(cp.GetAllocator());
+      // the same lookups again, now through the map (its comparator is configuration specific)
+      for (auto it = doc.MemberBegin(); it != doc.MemberEnd(); ++it) {
+        auto sv = it->name.GetStringView();
+        auto f1 = cp.FindMember(sv);
+        idx += (f1 == cp.MemberEnd() ? std::string("miss") : std::string(f1->name.GetStringView() == sv ? "k" : "WRONG")) + ",";
+      }
       idx += cp.HasMember("a") ? "a" : "-";
       idx += cp.HasMember(std::string(40, 'k')) ? "K" : "-";
       if (cp.Size()) cp.RemoveMember(cp.MemberBegin()->name.GetStringView());
